@@ -5,8 +5,9 @@ import PegVerif.Proofs.SemLemmas
 -/
 namespace PegVerif
 
-variable {P : Program} {cfg : Cfg} {env : CEnv} {G : Grammar} {inp : List Sym}
+variable [MInv] {P : Program} {cfg : Cfg} {env : CEnv} {G : Grammar} {inp : List Sym}
 
+omit [MInv] in
 theorem foldl_updTok_append (mt : Token) (a b : List Token) :
     (a ++ b).foldl updTok mt = b.foldl updTok (a.foldl updTok mt) := by simp
 
@@ -21,6 +22,7 @@ theorem Succ.trans {lbl lbl1 s f s1 f1 s2 f2 p1 p2 t1 t2 e1 e2}
   maxTok := by rw [h2.maxTok, h1.maxTok]; simp
   memo := h2.memo
 
+omit [MInv] in
 theorem take_take_of_le {α} (l : List α) {a b : Nat} (h : a ≤ b) : (l.take b).take a = l.take a := by
   rw [List.take_take, Nat.min_eq_left h]
 
@@ -85,6 +87,7 @@ theorem Failed.then_failed {lbl lbl1 s f s2 f2 s3 s4 f4 e1 e2}
   maxTok := by rw [h2.maxTok, hmt, h1.maxTok]; simp
   memo := h2.memo
 
+omit [MInv] in
 /-- Positions only move forward and stay inside the input. -/
 theorem Eval_bound {ρ : String → Nat → Bool} {e p res evs} (h : Eval G ρ inp e p res evs) :
     p ≤ inp.length → ∀ p1 f1, res = .ok p1 f1 → p ≤ p1 ∧ p1 ≤ inp.length := by
